@@ -2,6 +2,7 @@
 (* Behaviours of FatImpl for replay on the real implementation (spec -> impl): TLC's simulator
    walks the model, the operation labels of each behaviour are printed as one REPLAY line. *)
 EXTENDS FatImpl
+CntUnknown == {-1}
 CONSTANT K              \* operations per behaviour
 VARIABLE hist
 SimInit == Init /\ hist = <<>>
@@ -10,9 +11,10 @@ SimInit == Init /\ hist = <<>>
 \* the device writes the call will issue, in order, without their payloads
 AbsW(w) == CASE w.t \in {"fat", "fat2"} -> <<w.t, w.c, w.v>>
              [] w.t = "slot" -> <<"slot", w.b, w.i>>
+             [] w.t = "info" -> <<"info", 0>>
              [] OTHER -> <<w.t, w.c>>
 AbsPlan(p) == [i \in 1..Len(p) |-> AbsW(p[i])]
-SimNext == /\ Next /\ lastOp' # <<"crash">>
+SimNext == /\ Next /\ lastOp' # <<"crash">> /\ lastOp' # <<"remount">>
            /\ hist' = IF lastOp' = <<"w">> THEN hist ELSE Append(hist, <<lastOp', AbsPlan(plan')>>)
 SimSpec == SimInit /\ [][SimNext]_<<vars, hist>>
 Bound == Len(hist) <= K
